@@ -103,7 +103,7 @@ def obligations(cx):
             for init in (False, True):
                 if init and not (stated and units == KG): continue
                 ctr = {'Membrane.get_penetrant_data': CM.penetrant_data_contract(n, stated, units), 'min(key=)': CM.min_key_contract,
-                       'Membrane.calculate_activation_energy': CM.activation_energy_contract}
+                       'Membrane.calculate_activation_energy': CM.activation_energy_contract, 'numpy.searchsorted': CM.searchsorted_contract}
                 tag = "permeance.%s.%s%s" % ('stated' if stated else 'unstated', units.replace('/', '_'), '.initial' if init else '')
                 kw = dict(temperature=Tq, component=comp)
                 if init: kw['initial_permeance'] = W.permeance(src, var('Pinit'))
@@ -116,13 +116,24 @@ def obligations(cx):
                 for pi, p in enumerate(ps):
                     if p.outcome != 'return': continue
                     am = getattr(p.ex, 'argmin', None)
-                    if am is None: raise Unsupported("get_permeance no longer selects the experiment with min(key=)")
                     j = var('j', 'I')
-                    if pi == 0:
-                        e2 = Exec(src, [], ctr); e2.pc = list(p.pc) + [j >= 0, j < n]
-                        kj = e2.apply(am['key'], [j], {})
-                        cx.ob(tag + ".nearest-key", e2.pc, eq(kj, tabs(xT(j, comp) - Tq)), function=gp,
-                              statement="the experiment is chosen by minimal |T_i - T| (assumed contract of min(key=): a minimiser)")
+                    used = [t for t in getattr(p.ex, 'exp_accessed', []) if not (t.op == 'v' and t.a[0].startswith('ix!'))]
+                    if am is not None:
+                        if pi == 0:
+                            e2 = Exec(src, [], ctr); e2.pc = list(p.pc) + [j >= 0, j < n]
+                            kj = e2.apply(am['key'], [j], {})
+                            cx.ob(tag + ".nearest-key", e2.pc, eq(kj, tabs(xT(j, comp) - Tq)), function=gp,
+                                  statement="the experiment is chosen by minimal |T_i - T| (assumed contract of min(key=): a minimiser)")
+                    else:
+                        # some other selection: every experiment index the result depends on must be a nearest one, for lists in any order
+                        if not used: raise Unsupported("get_permeance: no experiment index could be identified")
+                        for ui, t_ in enumerate(used):
+                            cx.ob(tag + ".path%d.selected-experiment-is-nearest.%d" % (pi, ui), p.pc + [j >= 0, j < n, xT(j, comp) > 0], tabs(xT(t_, comp) - Tq) <= tabs(xT(j, comp) - Tq), function=gp,
+                                  statement="the experiment used is a nearest one (minimal |T_i - T|) whatever the order of the experiments", noslice=True)
+                    if used and used != [var('idx', 'I')] and am is not None:
+                        raise Unsupported("get_permeance reads experiments at indices other than the selected one: %s" % used)
+                    if am is None:
+                        continue
                     v = p.value
                     cx.ob(tag + ".path%d.units" % pi, [], blit(isinstance(v, Obj) and v.cls == 'Permeance' and v.f['units'] == KG), kind='paths', function=gp,
                           statement="get_permeance returns kg/(m2 h kPa)")
@@ -150,7 +161,7 @@ def obligations(cx):
                     cx.ob("arrhenius-line.independent-of-nearest", [subst(c, line) for c in p.pc] + [ne(xT(idx, comp), Tq)], eq(val, exp(c0 - Ea / (R * Tq))), kind='lemma', function=gp,
                           statement="experiments on ln P = c0 - Ea/(R T): the permeance at T is exp(c0 - Ea/(R T)) whichever experiment is nearest")
     # empty experiment list for the component: no permeance is invented
-    ctr0 = {'Membrane.get_penetrant_data': CM.penetrant_data_contract(0, True), 'min(key=)': CM.min_key_contract}
+    ctr0 = {'Membrane.get_penetrant_data': CM.penetrant_data_contract(0, True), 'min(key=)': CM.min_key_contract, 'numpy.searchsorted': CM.searchsorted_contract}
     ps = cx.explore(call(src, gp, [], dict(temperature=Tq, component=comp), self_obj=mem), contracts=ctr0, pre=[Tq > 0])
     all_raise(cx, "permeance.no-experiments.raises", ps, classes=('ValueError', 'IndexError'), function=gp)
     # ------------------------------------------------------------------ ideal selectivity
